@@ -123,6 +123,51 @@ theorem C08_lookup_after_inserts (is : List Nat) (i j : Nat)
   obtain ⟨h1, h2, h3⟩ := C08_findFor_greatest _ i j hs h
   exact ⟨(hm j).1 h1, h2, fun k hk hki => h3 k ((hm k).2 hk) hki⟩
 
+theorem sorted_ext : ∀ (a b : List Nat), a.Pairwise (· < ·) → b.Pairwise (· < ·) →
+    (∀ j, j ∈ a ↔ j ∈ b) → a = b := by
+  intro a
+  induction a with
+  | nil =>
+    intro b _ _ h
+    cases b with
+    | nil => rfl
+    | cons y bs => exact absurd ((h y).2 List.mem_cons_self) (by simp)
+  | cons x as ih =>
+    intro b ha hb h
+    cases b with
+    | nil => exact absurd ((h x).1 List.mem_cons_self) (by simp)
+    | cons y bs =>
+      rw [List.pairwise_cons] at ha hb
+      have hxy : x = y := by
+        have h1 := (h x).1 List.mem_cons_self
+        have h2 := (h y).2 List.mem_cons_self
+        rw [List.mem_cons] at h1 h2
+        rcases h1 with h1 | h1
+        · exact h1
+        · rcases h2 with h2 | h2
+          · exact h2.symm
+          · have := hb.1 x h1; have := ha.1 y h2; omega
+      subst hxy
+      congr 1
+      refine ih bs ha.2 hb.2 (fun j => ⟨fun hj => ?_, fun hj => ?_⟩)
+      · have := (h j).1 (List.mem_cons_of_mem _ hj)
+        rw [List.mem_cons] at this
+        rcases this with e | e
+        · have := ha.1 j hj; omega
+        · exact e
+      · have := (h j).2 (List.mem_cons_of_mem _ hj)
+        rw [List.mem_cons] at this
+        rcases this with e | e
+        · have := hb.1 j hj; omega
+        · exact e
+
+/-- The index does not depend on the order (or multiplicity) in which entries were inserted. -/
+theorem C08_inserts_order_independent (is js : List Nat) (h : ∀ j, j ∈ is ↔ j ∈ js) :
+    is.foldl insertIdx [] = js.foldl insertIdx [] := by
+  obtain ⟨s1, m1⟩ := C08_inserts_sorted is
+  obtain ⟨s2, m2⟩ := C08_inserts_sorted js
+  exact sorted_ext _ _ s1 s2 (fun j => by rw [m1 j, m2 j, h j])
+
 example : [7, 3, 7, 5].foldl insertIdx [] = [3, 5, 7] ∧ findFor ([7, 3, 7, 5].foldl insertIdx []) 6 = some 5 := by decide
 
 end Cache
